@@ -1,6 +1,6 @@
 use cosmwasm_std::{
     coin, coins, ensure, to_json_binary, wasm_execute, BankMsg, Coin, CosmosMsg, Decimal256,
-    DepsMut, Env, MessageInfo, Response, StdResult, SubMsg, Uint256,
+    DepsMut, Env, MessageInfo, Response, StdResult, SubMsg,
 };
 use cosmwasm_std::{Decimal, Uint128};
 use mantra_dex_std::coin::{add_coins, aggregate_coins};
@@ -458,11 +458,10 @@ pub fn withdraw_liquidity(
         .map(|pool_asset| {
             Ok(Coin {
                 denom: pool_asset.denom.clone(),
-                amount: Uint128::try_from(
-                    Decimal256::from_ratio(pool_asset.amount, Uint256::one())
-                        .checked_mul(share_ratio)?
-                        .to_uint_floor(),
-                )?,
+                // exact pro-rata share, rounded down: floor(reserve * burned / supply)
+                amount: pool_asset
+                    .amount
+                    .checked_multiply_ratio(amount, total_shares)?,
             })
         })
         .collect::<Result<Vec<Coin>, ContractError>>()?
